@@ -192,6 +192,8 @@ def handleK (op : String) (args res : List String) : Option Verdict :=
         let r := lccReverse tauf (⟨⟨a⟩, ⟨f⟩⟩ : Ell (FK p)) (lccOf p m) ⟨x⟩ ⟨y⟩
         [Float.atan r.tphi.v / degF, r.lam.v / degF, r.gamma.v / degF, r.k.v, Float.abs r.dpsi.v + Float.asinh (Float.abs r.tchi.v)]
       let ra := run 0 x y
+      let r0 := lccReverse tauf (⟨⟨a⟩, ⟨f⟩⟩ : Ell (FK 0)) (lccOf 0 m) ⟨x⟩ ⟨y⟩
+      if !(taufConv r0.tchi (⟨⟨a⟩, ⟨f⟩⟩ : Ell (FK 0)).es) then .skip "five Newton iterations do not reach the tolerance of Math::tauf (open finding F84): nothing to compare" else
       -- probe runs, and the sensitivity to the last bit of the inputs (drho is a difference of squares)
       let rb := farL ra [run 1 x y, run 2 x y, run 3 x y, run 4 x y, run 5 x y, run 0 (x * onePlus) y, run 0 x (y * onePlus)]
       let mlon := ra.getD 1 0
@@ -210,6 +212,9 @@ def handleK (op : String) (args res : List String) : Option Verdict :=
         let r := albReverse (fun t => tphif (⟨⟨a⟩, ⟨f⟩⟩ : Ell (FK p)) t) (⟨⟨a⟩, ⟨f⟩⟩ : Ell (FK p)) (albOf p m) ⟨x⟩ ⟨y⟩
         [Float.atan r.tphi.v / degF, r.lam.v / degF, r.theta.v / degF, r.k.v]
       let ra := run 0 x y
+      let E0 : Ell (FK 0) := ⟨⟨a⟩, ⟨f⟩⟩
+      let r0 := albReverse (fun t => tphif E0 t) E0 (albOf 0 m) ⟨x⟩ ⟨y⟩
+      if !(tphifConv E0 r0.txi) then .skip "five Newton iterations do not reach the tolerance of AlbersEqualArea::tphif (open finding F84): nothing to compare" else
       -- probe runs, and the sensitivity to the last bit of the inputs (drho is a difference of squares)
       let rb := farL ra [run 1 x y, run 2 x y, run 3 x y, run 4 x y, run 5 x y, run 0 (x * onePlus) y, run 0 x (y * onePlus)]
       let mlon := ra.getD 1 0
@@ -238,13 +243,19 @@ def handleK (op : String) (args res : List String) : Option Verdict :=
       let ta := (txif (E 0) ⟨tphi⟩).v; let tb := (txif (E 1) ⟨tphi⟩).v
       let ba := (tphif (E 0) ⟨txi⟩).v; let bb := (tphif (E 1) ⟨txi⟩).v
       let bc := (tphif (E 0) ⟨txi * onePlus⟩).v
-      checks "AlbersEqualArea::txif/tphif" [("txif", txi, ta, tb, 0), ("tphif", back, ba, bb, 8 * Float.abs (bc - ba))]
+      -- tphif is compared only where its Newton loop stops by its tolerance (the cap of 5 iterations is silent: open finding F84)
+      checks "AlbersEqualArea::txif/tphif" ([("txif", txi, ta, tb, 0)] ++ (if tphifConv (E 0) ⟨txi⟩ then [("tphif", back, ba, bb, 8 * Float.abs (bc - ba))] else []))
     | _, _ => .bad "parse"
   | "cddat" => some <|
     -- args: f x y xm; res: DDatanhee(x, y) atanhxm1(xm)
     match args.mapM pfl, res.mapM pfl with
     | some [f, x, y, xm], some [dd, am] =>
       let E (p : Nat) : Ell (FK p) := ⟨⟨1⟩, ⟨f⟩⟩
+      -- the numerical-range defects of DDatanhee2 (open finding F81; the class is decided from the arguments): for e² < −3 with the
+      -- series selected the sum cancels catastrophically and overflows; for 1 − e² < 1e-3 the scale factor overflows before convergence
+      let e2 := f * (2 - f); let lo := if y < x then y else x
+      let inF81 := (e2 < -3 && lo > 0 && Float.abs (2 * Float.sqrt (Float.abs e2) / (1 - e2) * (1 - lo)) < 0.75) || (1 - e2 < 1e-3 && lo > 0)
+      if inF81 then checks "AlbersEqualArea::atanhxm1" [("atanhxm1", am, (atanhxm1 (⟨xm⟩ : FK 0)).v, (atanhxm1 (⟨xm⟩ : FK 1)).v, 0)] else
       checks "AlbersEqualArea::DDatanhee/atanhxm1" [("DDatanhee", dd, (DDatanhee (E 0) ⟨x⟩ ⟨y⟩).v, (DDatanhee (E 1) ⟨x⟩ ⟨y⟩).v, 0),
         ("atanhxm1", am, (atanhxm1 (⟨xm⟩ : FK 0)).v, (atanhxm1 (⟨xm⟩ : FK 1)).v, 0)]
     | _, _ => .bad "parse"
